@@ -48,8 +48,9 @@ RULE = (
     "left-fold mean, min/max with key, list/set/dict, first/last/single(+default), all/any/in, emptiness give the value; "
     "it is expected at the completion tick followed by completion, except short-circuit results (first, some, all=False, "
     "contains=True, is_empty=False, single's second element, sequence_equal mismatch) which are expected at the deciding "
-    "element's tick; empty input without default gives SequenceContainsNoElementsError at the completion tick (average: "
-    "any operator-created exception); a source error passes through at its tick unless the result was decided earlier. "
+    "element's tick; empty input without default gives an error of TYPE SequenceContainsNoElementsError at the completion tick "
+    "for every aggregate without a default (reduce without seed, average with and without key mapper, min, max with and "
+    "without comparer, first, last, single with and without predicate); a source error passes through at its tick unless the result was decided earlier. "
     "sequence_equal's decision is computed over the merged event order of both timelines; for events of the two "
     "sequences at the same tick both consistent orders (first-before-second, second-before-first) are accepted. "
     "Non-trivial: a value was expected and differs from the input list, or a boundary class (b:*: empty input, default or "
@@ -64,7 +65,6 @@ ASSUMPTIONS = [
     "user callbacks are total pure functions; equality comparers are symmetric equivalence relations except the asymmetric one used for contains (argument order element, value grounded in the docstring example and Rx.NET); distinct / distinct_until_changed (C05) and sequence_equal keep symmetric comparers because no docstring or test fixes their argument order; ordering comparers are subtraction of total integer keys",
     "hot sources: events at or before the subscription tick are not part of the input",
     "an iterable second sequence of sequence_equal is delivered at the subscription tick",
-    "average on empty input may fail with any operator-created exception (the repository tests only require an error)",
     "single on a second element may fail with any operator-created exception",
 ]
 
@@ -299,6 +299,8 @@ def _oracle(form, a, E, term, S, second):
 
     def no_elements():
         cls.append("b:no-elements-error")
+        if completes:
+            cls.append("scne-type-checked:" + form)
         return [ERR(T, SCNE)] if completes else done
 
     def at(i, v):
@@ -345,8 +347,8 @@ def _oracle(form, a, E, term, S, second):
     elif form in ("average", "average_key"):
         key = mk_key(a.get("key")) or (lambda x: float(x))
         if n == 0:
-            cls.append("b:no-elements-error")
-            exp = [ERR(T, None)] if completes else done
+            # statement: "Empty input yields SequenceContainsNoElementsError where no default applies"
+            exp = no_elements()
         else:
             s = 0
             for x in xs:
